@@ -115,6 +115,19 @@ def gen_grid(seed, tier):
         b = GridBuilder(rng, ntables=1 if i % 5 else 2)
         steps = rng.randint(3, 25)
         wide = i % 7 == 0
+        if i % 11 == 0:
+            # a row shared by several tables (joined in various orders, also the same table twice), then cells added late
+            b = GridBuilder(rng, ntables=rng.randint(2, 3))
+            b.ops.append({"op": "newrow", "how": "new", "t": 1, "cap": 0})
+            b.rows.append({"sep": False, "n": 0, "tbl": 0})
+            for _ in range(rng.randint(0, 2)):
+                b.ops.append({"op": "rowadd", "r": 1, "item": S("a")})
+            for _ in range(rng.randint(2, 5)):
+                b.ops.append({"op": "addrow", "t": rng.randint(1, b.ntables), "r": 1})
+            for _ in range(rng.randint(1, 3)):
+                b.ops.append({"op": "rowadd", "r": 1, "item": S("bb")})
+            out.append(b.ops)
+            continue
         w = {"headers": 1, "rowitems": 4, "sep": 1, "appendrow": 1, "newrow": 1, "rowadd": 3, "addrow": 2}
         if i % 3 == 0:
             w["readd"] = 1
@@ -177,7 +190,7 @@ def gen_items(seed, tier):
                 items.append({"k": "rune", "s": rng.choice(["q", "é", "日", "\U0001F600"])})
             else:
                 inner = rng.choice([S(rng.choice(WORDS)), rnd_obj(rng, WORDS), {"k": "nil"}])
-                d = {"k": "cell", "inner": inner}
+                d = {"k": rng.choice(["cell", "cell", "cellptr"]), "inner": inner}
                 if rng.random() < 0.3:
                     d = {"k": "cell", "inner": d}
                 items.append(d)
@@ -274,7 +287,10 @@ def gen_errors(seed, tier):
                         for c in range(1, x["n"] + 1):
                             choices.append(({"kind": "cell", "r": j + 1, "c": c}, "render", rng.choice(["itself", "cell"])))
                 o, tm, tg = rng.choice(choices)
-                b.ops.append({"op": "regcb", "t": 1, "owner": o, "time": tm, "target": tg, "fails": 1 if rng.random() < 0.8 else 0})
+                # fails 1: a fresh error per invocation; 2: the same sentinel error value every time (and from every such callback)
+                b.ops.append({"op": "regcb", "t": 1, "owner": o, "time": tm, "target": tg, "fails": rng.choice([1, 1, 1, 2, 2, 0])})
+                if rng.random() < 0.3:
+                    b.ops.append({"op": "regcb", "t": 1, "owner": o, "time": tm, "target": tg, "fails": 2})
             elif r < 0.75:
                 b.ops.append({"op": "rendercbs", "t": 1})
             elif r < 0.8:
@@ -320,8 +336,8 @@ def gen_props(seed, tier):
             r = rng.random()
             if r < 0.3:
                 wide = rng.random() < 0.15
-                b.step(maxcells=13 if wide else 3, items=lambda: S("a"),
-                       weights={"headers": 1, "rowitems": 4, "sep": 1, "appendrow": 1, "newrow": 1, "rowadd": 2, "addrow": 2})
+                b.step(maxcells=13 if wide else 3, items=lambda: S(rng.choice(["a", "b", "name", "n"])),
+                       weights={"headers": 2, "rowitems": 4, "sep": 1, "appendrow": 1, "newrow": 1, "rowadd": 2, "addrow": 2})
                 op = b.ops[-1]
                 if op["op"] == "headers":
                     hdr = len(op["items"])
@@ -364,7 +380,8 @@ def gen_callbacks(seed, tier):
     n = 300 if tier == "quick" else 6000
     out = []
     for i in range(n):
-        b = GridBuilder(rng)
+        # sometimes the table is created by a sub-package: the "table" owner is then a wrapper around the table
+        b = GridBuilder(rng, via=[rng.choice(["core", "core", "csv", "texttable", "markdown", "html"])])
         ncols = 0
         hdr = 0
         ncb = 0
@@ -461,7 +478,8 @@ DECOR_NAMES = ["ascii-simple", "none", "utf8-light", "utf8-light-curved", "utf8-
 DECOR_FIELDS = ["Horizontal", "Vertical", "CrossPiece", "TopDown", "VBorder", "HOuter", "HRule", "VHeader",
                 "VBodyBorder", "VBodyInner", "TopLeft", "TopRight", "BottomLeft", "BottomRight", "LeftBodyRule", "RightBodyRule",
                 "HTopDown", "BTopDown", "BBottomUp", "HBCross", "HBLeft", "HBRight"]
-GLYPHS = list("abcdefghijklmnopqrstuvwxyzABCDEFGHIJKLMNOPQRSTUVWXYZ0123456789*+=-|#@%") + ["é", "ß", "╳", "░", "·"]
+GLYPHS = list("abcdefghijklmnopqrstuvwxyzABCDEFGHIJKLMNOPQRSTUVWXYZ0123456789*+=-|#@%") + ["é", "ß", "╳", "░", "·",
+          "-\u0305", "e\u0301", "|\u0336", "x\u0302\u0303"]   # several runes, one display cell
 
 TEXTS = ["a", "bb", "ccc", "", "x y", "line1\nline2", "tail\n", "\nlead", "a\n\nb", "日本", "é", "z​w",
          "\U0001F468‍\U0001F469‍\U0001F467", "\U0001F1E9\U0001F1EA", "wideＡ", "0", "-1.5", "three\nlines\nhere", " padded ",
@@ -493,7 +511,7 @@ def rnd_text_item(rng, texts=TEXTS, sized=0.15):
             caps = rng.choice([["String", "Width"], ["String", "Height"]])
             return {"k": "cell", "inner": {"k": "obj", "caps": caps, "strv": rng.choice([t for t in texts if "\n" not in t and t != ""]),
                                            "h": rng.randint(0, 3), "w": rng.randint(0, 7)}}
-        return {"k": "cell", "inner": S(rng.choice(texts))}
+        return {"k": rng.choice(["cell", "cellptr"]), "inner": S(rng.choice(texts))}
     return S(rng.choice(texts))
 
 
